@@ -129,7 +129,7 @@ func (b *batch) run(m *Monitor, o ParentOpts, work string, k int, raceLog string
 		cmd.Stdout, cmd.Stderr = logf, logf
 		cmd.Env = append(os.Environ(), "GOTRACEBACK=all")
 		if raceLog != "" {
-			cmd.Env = append(cmd.Env, "GORACE=halt_on_error=0 log_path="+raceLog+fmt.Sprintf(".b%03d", k))
+			cmd.Env = append(cmd.Env, "GORACE=halt_on_error=0 exitcode=0 log_path="+raceLog+fmt.Sprintf(".b%03d", k))
 		}
 		err := cmd.Run()
 		timedOut := ctx.Err() != nil
